@@ -83,7 +83,9 @@ theorem claim_fails_iff (b : Bank) (g : Nat) (hb : ∀ B ∈ b.balances, B < 2 ^
       simp [claim, hg, hlt, claimAll_total hR hle b.balances hb]
 
 /-- **every claimant gets at least the floor share of the ORIGINAL balances**, whatever the
-order and sizes of the claims (invariant `B_cur · R₀ ≥ B₀ · R_cur`). -/
+order and sizes of the claims (invariant `B_cur · R₀ ≥ B₀ · R_cur`). The statement is about a bank with
+`0 < b0.remaining`; for `b0.remaining = 0` the quotient is Lean's `n / 0 = 0` and the inequality carries no
+information — that degenerate case is stated separately and exactly by `empty_bank_pays_nothing` below. -/
 theorem floor_share_of_original (b0 : Bank) (gs : List Nat) :
     ∀ e ∈ (runClaims b0 gs).2, ∀ p ∈ List.zip b0.balances e.2,
       p.1 * e.1 / b0.remaining ≤ p.2 := by
@@ -106,6 +108,40 @@ theorem floor_share_of_original (b0 : Bank) (gs : List Nat) :
       rcases he with rfl | he
       · exact hshare
       · exact ih b' hD' e he
+
+/-- the degenerate case of `floor_share_of_original`, stated for what it is: from a bank with NO remaining GT only
+zero-size claims succeed, and they pay nothing (so "floor share" `B·0/0` is not hiding a payout). -/
+theorem empty_bank_pays_nothing (b0 : Bank) (h0 : b0.remaining = 0) (gs : List Nat) :
+    (runClaims b0 gs).1 = b0 ∧ ∀ e ∈ (runClaims b0 gs).2, e.1 = 0 ∧ ∀ a ∈ e.2, a = 0 := by
+  induction gs with
+  | nil => exact ⟨rfl, fun e he => by simp [runClaims] at he⟩
+  | cons g gs ih =>
+    by_cases hg : g = 0
+    · subst hg
+      simp only [runClaims, claim_zero_noop]
+      refine ⟨ih.1, ?_⟩
+      intro e he
+      simp only [List.mem_cons] at he
+      rcases he with rfl | he
+      · exact ⟨rfl, fun a ha => by simp at ha; exact ha.2.symm⟩
+      · exact ih.2 e he
+    · have hn : claim b0 g = none := by
+        have : b0.remaining < g := by omega
+        simp [claim, hg, this]
+      simp only [runClaims, hn]
+      exact ih
+
+/-- … and `floor_share_of_original` read with the hypothesis it is about: with `0 < b0.remaining` the bound is the true
+rational share rounded down, i.e. `B₀ · g ≤ (paid + 1) · R₀ − 1`. -/
+theorem floor_share_of_original_pos (b0 : Bank) (hR : 0 < b0.remaining) (gs : List Nat) :
+    ∀ e ∈ (runClaims b0 gs).2, ∀ p ∈ List.zip b0.balances e.2,
+      p.1 * e.1 < (p.2 + 1) * b0.remaining := by
+  intro e he p hp
+  have h := floor_share_of_original b0 gs e he p hp
+  have := Nat.lt_mul_of_div_lt (Nat.lt_succ_of_le h) hR
+  simpa [Nat.mul_comm] using this
+
+example : (runClaims ⟨true, 0, [10, 7]⟩ [0, 3, 0]).2 = [(0, [0, 0]), (0, [0, 0])] := by decide
 
 /-- the claim that takes all remaining GT drains the bank: it pays every balance in full. -/
 theorem last_claim_drains {b b' : Bank} {n : Nat} {amts : List Nat} (hR : 0 < b.remaining)
